@@ -144,7 +144,12 @@ func runMsgVector(tw *traceWriter, tr int, v msgVector) {
 		}
 		pre := stateOf(m)
 		e := applyMsgOp(m, op)
-		tw.emit(map[string]interface{}{"k": "op", "tr": tr, "i": i, "op": op, "perr": e, "pre": pre, "post": stateOf(m)})
+		refused := len(e) >= 4 && e[:4] == "err:" // the operation returned an error (a refused setter), no panic
+		pe := e
+		if refused {
+			pe = ""
+		}
+		tw.emit(map[string]interface{}{"k": "op", "tr": tr, "i": i, "op": op, "perr": pe, "refused": refused, "pre": pre, "post": stateOf(m)})
 		if e != "" {
 			return
 		}
